@@ -114,6 +114,14 @@ CLAIMS = {
         "text": "Request-flag-as-completion rule on Router::shutdown: every Ok return that does not itself complete the join of the run task must be selected by state other callers can only observe after the join (not by the cancel flag raised before the join, nor by a task slot emptied and released before it); plus the run-loop epilogue order (protocols.shutdown completed before endpoint.close, both on every exit, drop-guard first). Termination of handler shutdowns is not decided.",
         "technique": "join-free-path search on coroutine MIR, dominance of state writes by the join's Ready edge, lockset (guard held across the join), must-follow on the epilogue",
     },
+    "C01": {
+        "text": "Decides structurally: the TLS verifier asserts `verified` only after name decode, no intermediates and equality of the presented raw key with the dialed id's key; signatures go through rustls's raw-key TLS1.3 verification with ed25519 only (TLS1.2 refused, raw keys required); within iroh only tls::verifier produces rustls assertion tokens and the QUIC configs are wired to these verifiers; dialed name = encode(dialed id), decode accepts exactly `<b32>.iroh.invalid`; the remote id is derived from the single peer certificate. rustls/noq honouring the verifier contract is assumed.",
+        "technique": "success-edge dominance on the verifier MIR, who-calls over rustls assertion constructors, derives-from / copy-chain provenance, encode/decode table agreement",
+    },
+    "C02": {
+        "text": "Decides: PublicKey values come only from successfully parsed/derived ed25519 keys (constructor inventory + success-edge), verify is strict, CustomAddrBytes' Inline arm is built only under len <= N (N from the field type) so accessors cannot index out of range, and every panic-capable operation in iroh-base's parsers/accessors is in a reviewed inventory with its discharge reason. Round-trip equality across encodings is NOT decided.",
+        "technique": "constructor-site inventory, constructor-established invariant, targeted panic inventory over resolved callees (index/expect/copy_from_slice)",
+    },
 }
 
 _PENDING = "rules for this property are not implemented yet in this revision (see DESIGN.md §4 for the planned structural clauses)"
